@@ -36,6 +36,9 @@ def run(ctx: Ctx):
     from .common import generic_lints
 
     generic_lints(ctx)
+    from .common import nullable_key_agreement
+
+    nullable_key_agreement(ctx)
     from .common import zip_pairing
 
     zip_pairing(ctx, "pairing", "dimension.py", "_ElementIdShim")
